@@ -340,6 +340,12 @@ def applyOp (p : Pair) : Op → Pair
     let p := p.put q d.1
     p.put r (load (p.get r) d.2)
 
+/-- `EnsureCapacity(words)` with the Go `int` argument as it is: zero and negative requests fall through the single
+    comparison `words > size` (extension for the hardening pass; `C08.ensureCapacity_int` relates it to `ensureCapacity`) -/
+def ensureCapacityInt (b : T) (words : Int) : T :=
+  let size : Int := Int.ofNat b.data.length
+  if words > size then ensureCapacity b words.toNat else b
+
 /-- the state after a history, starting from two zero-value bit sets -/
 def run (ops : List Op) : Pair := ops.foldl applyOp {}
 
